@@ -124,6 +124,11 @@ def run(tier, seed):
     cases = []
     for v in vs:
         cases += chain_cases(rng, v, 40 if tier != 'quick' else 10, 12 if tier != 'quick' else 6, ex)
+    # the same chains, the first write spelled `<chain>.value = v` at a random depth, with and without content
+    for c in list(cases):
+        if rng.random() < .5:
+            nlinks = len(c['groups']) + 2 + (1 if c['component'] else 0) + (1 if c['sub'] else 0)
+            cases.append(dict(c, valuewrite=[rng.randrange(1, nlinks + 1), rng.choice(['', '', 'X', '^', '^^X', c['segment'], c['segment'] + '|', c['segment'] + '||X'])], rounds=1))
     outs = vlib.pmap(chains.chain_job, cases)
     depth = {}
     for c, o in zip(cases, outs):
